@@ -13,7 +13,7 @@ use serde_json::{Value, json};
 pub static SPEC: PropSpec = PropSpec {
     id: "C18",
     level: "exploration",
-    rule: "values: definition sets of 2-6 non-generic structs / enums (fields int32, string, bool, unit, earlier user types, self-recursive enum payloads; field names from a pool containing tag, fields, self, acc, s, x, json_escape_string, to_json, to_string, Go keywords) each deriving ToString and/or ToJson, and 3-8 random values per type with strings over a hostile alphabet (quotes, backslashes, all C0 controls, DEL, NBSP, U+2028, BOM, private use, emoji, non-characters); every to_json output must parse as JSON and decode to the value (objects per struct, tag/fields per variant), every to_string output must equal `Name { f: v }` / `Enum::Variant(v)`. acceptance probes: every field type outside the supported set (all other integer widths, floats, bool / unit under ToString, tuples, arrays, Vec, Ref, function types, dyn, generic definitions) under each derive, as struct field and as enum payload - accepted (then checked) or refused by a diagnostic that names the derive. non-trivial: every value; distinct by (definition set, value) hash",
+    rule: "values: definition sets of 2-6 non-generic structs / enums (fields int32, string, bool, unit, earlier user types, self-recursive enum payloads; field names from a pool containing tag, fields, self, acc, s, x, json_escape_string, to_json, to_string, Go keywords) each deriving ToString and/or ToJson, and 3-8 random values per type with strings over a hostile alphabet (quotes, backslashes, all C0 controls, DEL, NBSP, U+2028, BOM, private use, emoji, non-characters); every to_json output must parse as JSON and decode to the value (objects per struct, tag/fields per variant), every to_string output must equal `Name { f: v }` / `Enum::Variant(v)`. acceptance probes: every field type outside the supported set (all other integer widths, floats, bool / unit under ToString, tuples, arrays, Vec, Ref, function types, dyn, generic definitions) under each derive, as first / later struct field and as first / later enum payload - accepted (then checked) or refused by a diagnostic that names the derive. non-trivial: every value; distinct by (definition set, value) hash",
     eval_counter: "values_checked",
     assumptions: &["JSON well-formedness and decoding are decided by serde_json; Go's %q is modelled by gomini (strings whose printability gomini does not know are inconclusive)"],
     crash_is_violation: false,
@@ -21,7 +21,7 @@ pub static SPEC: PropSpec = PropSpec {
     case_cpu_s: 120,
     shards: 0,
     run,
-    floors: &[("values_checked", 1_500, 60_000), ("json_documents_decoded", 700, 30_000), ("programs_agree", 40, 1_500), ("acceptance_probes", 50, 50)],
+    floors: &[("values_checked", 1_500, 60_000), ("json_documents_decoded", 700, 30_000), ("programs_agree", 40, 1_500), ("acceptance_probes", 100, 100)],
     finish: None,
 };
 
@@ -485,8 +485,18 @@ const EXTENDED: &[(&str, &str, &str)] = &[
 
 fn acceptance_probe(c: &mut Case, derive: &str, container: &str, ty: &str, val: &str, tag: &str) {
     let method = if derive == "ToString" { "to_string" } else { "to_json" };
-    let def = if container == "struct" { format!("#[derive({})]\nstruct Probe {{ f: {} }}\n", derive, ty) } else { format!("#[derive({})]\nenum Probe {{ None0, Some1({}) }}\n", derive, ty) };
-    let mk = if container == "struct" { format!("Probe {{ f: {} }}", val) } else { format!("Probe::Some1({})", val) };
+    let def = match container {
+        "struct" => format!("#[derive({})]\nstruct Probe {{ f: {} }}\n", derive, ty),
+        "struct-later-field" => format!("#[derive({})]\nstruct Probe {{ a: int32, b: string, f: {} }}\n", derive, ty),
+        "enum" => format!("#[derive({})]\nenum Probe {{ None0, Some1({}) }}\n", derive, ty),
+        _ => format!("#[derive({})]\nenum Probe {{ None0, Two2(int32, {}), Three3(string, int32, {}) }}\n", derive, ty, ty),
+    };
+    let mk = match container {
+        "struct" => format!("Probe {{ f: {} }}", val),
+        "struct-later-field" => format!("Probe {{ a: 1, b: \"s\", f: {} }}", val),
+        "enum" => format!("Probe::Some1({})", val),
+        _ => format!("Probe::Two2(1, {})", val),
+    };
     let src = format!(
         "trait Shown {{\n    fn show(Self) -> string;\n}}\nimpl Shown for int32 {{\n    fn show(self: int32) -> string {{ \"i\" }}\n}}\nfn incr(x: int32) -> int32 {{ x + 1 }}\nfn dynval() -> dyn Shown {{ let k = 1; let d: dyn Shown = k; d }}\n{}fn main() -> unit {{\n    let p = {};\n    let _ = string_println(p.{}());\n    ()\n}}\n",
         def, mk, method
@@ -551,7 +561,7 @@ fn run(ctx: &mut Ctx) {
     // acceptance probes (same in every run)
     let mut k = 0u64;
     for derive in ["ToString", "ToJson"] {
-        for container in ["struct", "enum"] {
+        for container in ["struct", "enum", "struct-later-field", "enum-later-payload"] {
             for (ty, val, tag) in EXTENDED {
                 k += 1;
                 if !ctx.mine(700_000 + k) {
